@@ -546,6 +546,8 @@ class State:
                 return False
             tgt = st[mi - 1]
             items = st[mi + 1 :]
+            if op == "SETITEMS" and t == 0:
+                return True  # an empty slice: the VM touches nothing, any target is accepted
             if not self._mutable(tgt) or not self._can_insert(items, tgt):
                 return False
             if op == "APPENDS":
@@ -704,7 +706,7 @@ class State:
             elif op == "INST":
                 self._bind(*arg)
                 st.append(self._call(op, [V("glob", val=arg)] + xs))
-            else:
+            elif xs:
                 st[-1].kids += xs
         elif op == "REDUCE":
             st.append(self._call(op, self._popn(2)))
